@@ -10,6 +10,7 @@ import (
 	"runtime"
 	"strings"
 	"sync"
+	"syscall"
 	"time"
 )
 
@@ -23,11 +24,61 @@ type solverSpec struct {
 }
 
 var solvers = []solverSpec{
-	{"z3-new", func(f string, s int) []string { return []string{"z3-new", fmt.Sprintf("-T:%d", s), f} }},
-	{"z3", func(f string, s int) []string { return []string{"z3", fmt.Sprintf("-T:%d", s), f} }},
+	{"z3-new", func(f string, s int) []string { return []string{"z3-new", fmt.Sprintf("-T:%d", s*wallFactor), f} }},
+	{"z3", func(f string, s int) []string { return []string{"z3", fmt.Sprintf("-T:%d", s*wallFactor), f} }},
 	{"cvc5", func(f string, s int) []string {
-		return []string{"cvc5", fmt.Sprintf("--tlimit=%d", s*1000), "--produce-models", f}
+		return []string{"cvc5", fmt.Sprintf("--tlimit=%d", s*1000*wallFactor), "--produce-models", f}
 	}},
+}
+
+// A solver's limit is CPU time (ulimit -t), so that an answer does not depend on what else the
+// machine is doing; the wall-clock limit is wallFactor times larger and only a backstop.
+const wallFactor = 6
+
+// Machine-wide solver slots: concurrent govc processes (several checks started at once) share the
+// cores through advisory locks on NumCPU files; without this every process would start NumCPU
+// solvers of its own. The files are created on demand and carry no state.
+var slotDir = filepath.Join(os.TempDir(), fmt.Sprintf("govc-slots-%d", os.Getuid()))
+
+func acquireMachineSlot(ctx context.Context) *os.File {
+	os.MkdirAll(slotDir, 0o755)
+	n := runtime.NumCPU()
+	start := int(time.Now().UnixNano() % int64(n))
+	for {
+		for i := 0; i < n; i++ {
+			f, err := os.OpenFile(filepath.Join(slotDir, fmt.Sprintf("slot%d", (start+i)%n)), os.O_CREATE|os.O_RDWR, 0o644)
+			if err != nil {
+				return nil // no lock directory: run without machine-wide coordination
+			}
+			if syscall.Flock(int(f.Fd()), syscall.LOCK_EX|syscall.LOCK_NB) == nil {
+				return f
+			}
+			f.Close()
+		}
+		select {
+		case <-ctx.Done():
+			return nil
+		case <-time.After(25 * time.Millisecond):
+		}
+	}
+}
+
+func releaseMachineSlot(f *os.File) {
+	if f != nil {
+		syscall.Flock(int(f.Fd()), syscall.LOCK_UN)
+		f.Close()
+	}
+}
+
+// cpuLimitHit: the solver was ended by its CPU-time limit (SIGXCPU, or SIGKILL at the hard limit).
+func cpuLimitHit(cmd *exec.Cmd) bool {
+	if cmd.ProcessState == nil {
+		return false
+	}
+	if ws, ok := cmd.ProcessState.Sys().(syscall.WaitStatus); ok && ws.Signaled() {
+		return ws.Signal() == syscall.SIGXCPU || ws.Signal() == syscall.SIGKILL
+	}
+	return false
 }
 
 type solveResult struct {
@@ -73,9 +124,16 @@ func runSolverSet(solvers []solverSpec, query string, file string, secs int, tho
 				return
 			}
 			defer func() { <-solverSlots }()
+			ms := acquireMachineSlot(ctx)
+			defer releaseMachineSlot(ms)
+			if ctx.Err() != nil {
+				ch <- one{sp.name, "cancelled", "", 0}
+				return
+			}
 			t0 := time.Now()
 			a := sp.args(file, secs)
-			cmd := exec.CommandContext(ctx, a[0], a[1:]...)
+			sh := fmt.Sprintf("ulimit -t %d; exec \"$@\"", secs+1)
+			cmd := exec.CommandContext(ctx, "/bin/sh", append([]string{"-c", sh, "sh"}, a...)...)
 			var ob bytes.Buffer
 			cmd.Stdout = &ob
 			cmd.Stderr = &ob
@@ -85,7 +143,7 @@ func runSolverSet(solvers []solverSpec, query string, file string, secs int, tho
 			switch st {
 			case "unsat", "sat":
 			default:
-				if strings.Contains(out, "timeout") {
+				if strings.Contains(out, "timeout") || cpuLimitHit(cmd) {
 					st = "timeout"
 				} else if st != "unknown" {
 					st = "error:" + trunc(st, 200)
